@@ -1,6 +1,8 @@
 """C06 — inactive and suspended queues run nothing; resume restarts them.
    Model/Suspend.v (sequential suspend/resume/activate over the generated dq_state bodies) + Iface lemmas on
    Gen_dqstate (every lock / fast path / wakeup refuses a suspended or inactive word)."""
+import os
+
 import common
 import driver
 import lanes
@@ -16,9 +18,11 @@ TRUSTED = [
     "hand-written in Model/Suspend.v: the delta computation and side-counter updates around the slow-path loops, tied by the "
     "white-box differential run (state word and dq_side_suspend_cnt compared after every call, nesting depths up to several "
     "hundred)",
-    "the theorems about suspend/resume/activate histories are sequential (one thread issues the calls on a queue nobody "
-    "drains); concurrent suspend/resume races with drainers are covered only through the word-level refusal lemmas and the "
-    "stress oracle, not by a global invariant (stated as partial)",
+    "the theorems of Properties_C06.v about suspend/resume/activate histories are sequential (one thread issues the calls on a "
+    "queue nobody drains): C06_suspend_counts is about Suspend.suspend (run by the differential as part of run_ops), "
+    "C06_resume_counts / C06_nesting_any_depth are about the linearised updates suspend_word / resume_word (run_words), whose "
+    "suspend bits and side counter the differential compares with the library after every call of the histories on an "
+    "activated idle queue; races with drainers and submitters are the subject of the protocol part (Properties_C06_slane.v)",
 ]
 ASSUMPTIONS = ["dq_side_suspend_cnt is only accessed under the side lock (as in the code)"]
 
@@ -59,21 +63,37 @@ def gen_cases(ctx, n):
     return cases
 
 
-def correspond_seq(ctx):
+SEQ_TIMEOUT = 600
+
+
+def run_cases(exe, cases):
+    """the white-box driver on these histories; a wall-clock expiry alone is load: repeated once, alone, with ten times the limit"""
+    inp = "".join("%s %d %d %s\n" % tuple(c) for c in cases)
+    r = common.run([exe], input=inp, timeout=SEQ_TIMEOUT)
+    if r.returncode == 124:
+        r = common.run([exe], input=inp, timeout=10 * SEQ_TIMEOUT)
+    return r
+
+
+def judge_cases(cases, tag):
+    """library and models on these histories. returns (mismatches, failures, stats); every entry carries its `case`"""
+    mism, fails = [], []
+    st = {"histories_run": 0, "calls_compared": 0, "max_total_depth": 0, "steps_with_side_count": 0, "word_histories": 0,
+          "word_calls_compared": 0}
     exe, msg = common.build_harness("c06_suspend", ["c06_suspend.c"], whitebox=True)
     if exe is None:
-        return {"mismatches": [{"what": "harness build failed", "detail": msg}], "failures": [], "evaluations": 0}
-    cases = gen_cases(ctx, 25 if ctx.tier == "quick" else 400)
-    inp = "".join("%s %d %d %s\n" % c for c in cases)
-    r = common.run([exe], input=inp, timeout=600)
+        return [{"what": "harness build failed", "detail": msg}], [], st
+    cases = [tuple(c) for c in cases]
+    r = run_cases(exe, cases)
     lines = [l for l in r.stdout.split("\n") if l.strip()]
     if r.returncode != 0 or len(lines) != len(cases):
-        return {"mismatches": [{"what": "harness run failed (the library crashed or hung on a legal suspend/resume history)",
-                                "detail": {"rc": r.returncode, "stderr": r.stderr[-800:], "lines": len(lines), "cases": len(cases),
-                                           "next_case": list(cases[len(lines)]) if len(lines) < len(cases) else None}}],
-                "failures": [{"key": "suspend-history-crash", "what": "legal suspend/resume history makes the library crash or hang: %s"
-                              % (list(cases[len(lines)])[:3] if len(lines) < len(cases) else "?"),
-                              "case": list(cases[len(lines)]) if len(lines) < len(cases) else None}], "evaluations": len(lines)}
+        nxt = list(cases[len(lines)]) if len(lines) < len(cases) else None
+        mism.append({"what": "harness run failed (the library crashed or hung on a legal suspend/resume history)",
+                     "detail": {"rc": r.returncode, "stderr": r.stderr[-800:], "lines": len(lines), "cases": len(cases), "next_case": nxt},
+                     "case": nxt})
+        fails.append({"key": "suspend-history-crash", "what": "legal suspend/resume history makes the library crash or hang: %s"
+                      % (nxt[:3] if nxt else "?"), "case": nxt})
+        return mism, fails, st
     impl = []
     for l in lines:
         head, body, fin = l.split("|")
@@ -81,40 +101,79 @@ def correspond_seq(ctx):
         xs = [int(x) for x in body.split()]
         steps = [(xs[i], xs[i + 1], xs[i + 2]) for i in range(0, len(xs), 3)]
         impl.append((selfv, st0, steps, int(fin)))
+    for c, im in zip(cases, impl):
+        if len(im[2]) != len(c[3]):
+            mism.append({"what": "the driver printed %d steps for a history of %d calls" % (len(im[2]), len(c[3])), "case": list(c)})
+    if mism:
+        return mism, fails, st
+    st["histories_run"] = len(cases)
     body = []
     opmap = {"s": "OSuspend", "r": "OResume", "a": "OActivate"}
+    bmap = {"s": "true", "r": "false"}
+    # `run_words` (Suspend_proofs: the linearised count updates suspend_word / resume_word that C06_suspend_counts,
+    # C06_resume_counts and C06_nesting_any_depth are about) applies to an activated queue nobody drains: histories without
+    # activation on a queue created active, without an item
+    words_ok = [(w == "1" or w == "c") and ina == 0 and pos < 0 and "a" not in ops for (w, ina, pos, ops) in cases]
+    body.append("Fixpoint words (q : sq) (ops : list bool) : list Z := match ops with [] => [] | o :: r => "
+                "match apply_word q o with Some q' => (st q' / 36028797018963968) :: side q' :: words q' r | None => [-1; -1] end end.")
     for i, ((w, ina, pos, ops), (selfv, st0, steps, fin)) in enumerate(zip(cases, impl)):
-        # run-length encode the op list to keep the .v small
-        body.append("Definition c%d := run_ops {| st := %d; side := 0; width := %d; self := %d |} (%s)." % (
-            i, st0, 1 if w == "1" else 4094, selfv, rle(ops, opmap)))
+        q0 = "{| st := %d; side := 0; width := %d; self := %d |}" % (st0, 1 if w == "1" else 4094, selfv)
+        body.append("Definition c%d := run_ops %s (%s)." % (i, q0, rle(ops, opmap)))
+        body.append("Definition w%d := %s." % (i, ("words %s (%s)" % (q0, rle(ops, bmap))) if words_ok[i] else "@nil Z"))
     body.append("Definition outs := [%s]." % "; ".join("c%d" % i for i in range(len(cases))))
     body.append("Eval vm_compute in map (fun '(r, l) => (match r with ROk _ => 0 | RCrash t => t | RStuck => 99 end) :: "
                 "flat_map (fun '(s, d) => [s; d; b2z (nz (f_dq_state_is_suspended s))]) l) outs.")
-    ok, vals, raw = driver.coq_eval("c06_cases", ["Word", "Gen_dqstate", "Suspend"], "\n".join(body) + "\n", timeout=900)
-    if not ok or len(vals) != 1:
-        return {"mismatches": [{"what": "model evaluation failed (coqc)", "detail": raw}], "failures": [], "evaluations": len(cases)}
-    # parse nested list: split on '];'
-    txt = vals[0]
-    groups = [driver.ints(g) for g in txt.replace("\n", " ").split("]") if driver.ints(g)]
-    mism, fails = [], []
-    maxdepth = 0
-    slow = 0
-    for i, (g, (w, ina, pos, ops), (selfv, st0, steps, fin)) in enumerate(zip(groups, cases, impl)):
+    body.append("Eval vm_compute in [%s]." % "; ".join("(-7) :: w%d" % i for i in range(len(cases))))
+    name = "%s_%d" % (tag, os.getpid())
+    imports = ["Word", "Gen_dqstate", "Suspend", "Suspend_proofs"]
+    ok, vals, raw = driver.coq_eval(name, imports, "\n".join(body) + "\n", timeout=900)
+    if not ok and "TIMEOUT" in raw:
+        ok, vals, raw = driver.coq_eval(name, imports, "\n".join(body) + "\n", timeout=9000)
+    if not ok or len(vals) != 2:
+        return [{"what": "model evaluation failed (coqc)", "detail": raw[-2500:]}], fails, st
+    groups = [driver.ints(g) for g in vals[0].replace("\n", " ").split("]") if driver.ints(g)]
+    wgroups = [driver.ints(g)[1:] for g in vals[1].replace("\n", " ").split("]") if driver.ints(g)]
+    if len(groups) != len(cases) or len(wgroups) != len(cases):
+        return [{"what": "model evaluation printed %d / %d results for %d histories" % (len(groups), len(wgroups), len(cases)),
+                 "detail": raw[-1500:]}], fails, st
+    for i, (g, wg, (w, ina, pos, ops), (selfv, st0, steps, fin)) in enumerate(zip(groups, wgroups, cases, impl)):
+        case = [w, ina, pos, ops]
         status, rest = g[0], g[1:]
-        model = [(rest[k], rest[k + 1], rest[k + 2]) for k in range(0, len(rest), 3)]
+        model = [(rest[k], rest[k + 1], rest[k + 2]) for k in range(0, len(rest) - 2, 3)]
         if status != 0:
-            mism.append({"what": "model does not run this history (crash/stuck tag %d)" % status, "detail": {"case": [w, ina, pos, ops[:80]]}})
+            mism.append({"what": "model does not run this history (crash/stuck tag %d)" % status, "case": case,
+                         "detail": {"case": [w, ina, pos, ops[:80]]}})
+            continue
+        if len(model) != len(steps):
+            mism.append({"what": "Model/Suspend.v ran %d calls of a history of %d" % (len(model), len(steps)), "case": case})
             continue
         for k, ((ms, md, msusp), (is_, id_, iran)) in enumerate(zip(model, steps)):
-            maxdepth = max(maxdepth, (ms >> 58) + md)
-            slow += 1 if md else 0
+            st["max_total_depth"] = max(st["max_total_depth"], (ms >> 58) + md)
+            st["steps_with_side_count"] += 1 if md else 0
             # once an item is queued (k >= pos) only the suspend-count part of the word is comparable: the item's
             # push legitimately sets DIRTY / QoS bits and, after the last resume, a worker may hold the drain lock
             same = ((ms >> 55, md) == (is_ >> 55, id_)) if (pos >= 0 and k >= pos) else ((ms, md) == (is_, id_))
+            st["calls_compared"] += 1
             if not same:
                 mism.append({"what": "dq_state / dq_side_suspend_cnt after call #%d differ between library and Model/Suspend.v" % k,
+                             "case": case,
                              "detail": {"case": [w, ina, pos, ops[:120]], "op": ops[k], "impl": [is_, id_], "model": [ms, md]}})
                 break
+        if words_ok[i]:
+            # the count part (suspend bits, side counter) of suspend_word / resume_word against the library, after every call
+            wm = [(wg[k], wg[k + 1]) for k in range(0, len(wg) - 1, 2)]
+            if len(wm) != len(steps):
+                mism.append({"what": "run_words (suspend_word / resume_word) ran %d calls of a legal history of %d" % (len(wm), len(steps)),
+                             "case": case})
+            else:
+                st["word_histories"] += 1
+                for k, ((mh, md), (is_, id_, iran)) in enumerate(zip(wm, steps)):
+                    st["word_calls_compared"] += 1
+                    if (mh, md) != (is_ >> 55, id_):
+                        mism.append({"what": "suspend bits / side counter after call #%d differ between library and "
+                                             "suspend_word / resume_word (Suspend_proofs.run_words)" % k, "case": case,
+                                     "detail": {"op": ops[k], "impl": [is_ >> 55, id_], "model": [mh, md]}})
+                        break
         # judge on the implementation: an item must not run while the history says the queue is suspended or inactive
         if pos >= 0:
             depth, active = 0, not ina
@@ -135,23 +194,34 @@ def correspond_seq(ctx):
                     fails.append({"key": "item-ran-while-suspended:%s:%d:%d:%s" % (w, ina, pos, ops[:40]),
                                   "what": "an item of a queue ran after call #%d of the history although %d suspension(s) were still "
                                           "outstanding%s (history %s..., %d calls)" % (k, depth, "" if active else " and the queue was "
-                                          "never activated", ops[:30], len(ops)), "case": [w, ina, pos, ops]})
+                                          "never activated", ops[:30], len(ops)), "case": case})
                     break
             else:
                 if depth == 0 and active and not fin:
                     fails.append({"key": "item-never-ran:%s:%d:%d:%s" % (w, ina, pos, ops[:40]),
-                                  "what": "an item submitted to a suspended queue did not run within 2s after the last resume",
-                                  "case": [w, ina, pos, ops]})
-    return {"evaluations": sum(len(c[3]) for c in cases), "distinct_nontrivial": len(set(cases)),
+                                  "what": "an item submitted to a suspended queue had not run 30 s after the last resume",
+                                  "case": case})
+    return mism, fails, st
+
+
+def correspond_seq(ctx):
+    cases = gen_cases(ctx, 25 if ctx.tier == "quick" else 400)
+    mism, fails, st = judge_cases(cases, "c06_cases")
+    if st["calls_compared"] == 0 and not mism:
+        mism.append({"what": "the sequential differential compared no call at all"})
+    elif st["word_calls_compared"] == 0 and not mism and not fails:
+        mism.append({"what": "no history was eligible for the suspend_word / resume_word comparison"})
+    return {"evaluations": st["calls_compared"] + st["word_calls_compared"], "distinct_nontrivial": st["histories_run"],
             "rule": "histories of dispatch_suspend/dispatch_resume/dispatch_activate (balanced, never over-resumed; fixed corpus at depths "
                     "1..200 around the inline-counter spill at 63 and the side-counter steps of 32; seeded random histories up to 300 calls "
                     "on serial/concurrent, active/initially-inactive queues) applied to a real queue from one thread; dq_state and "
-                    "dq_side_suspend_cnt after EVERY call compared with Model/Suspend.v evaluated in Coq; an item submitted at a random "
-                    "point must not run while suspensions are outstanding and must run after the last resume; evaluations = calls",
-            "samples": [{"queue": c[0], "inactive": c[1], "item_pos": c[2], "ops": c[3][:60], "impl_last": impl[i][2][-1]} for i, c in
-                        list(enumerate(cases))[17:21]],
-            "distribution": {"histories": len(cases), "max_total_depth": maxdepth, "steps_with_side_count": slow,
-                             "with_item": sum(1 for c in cases if c[2] >= 0)},
+                    "dq_side_suspend_cnt after EVERY call compared with Model/Suspend.v (run_ops) evaluated in Coq, and, for the histories "
+                    "on an activated idle queue, the suspend bits and the side counter compared with suspend_word / resume_word "
+                    "(run_words, the functions the counting theorems of Properties_C06.v are about); an item submitted at a random "
+                    "point must not run while suspensions are outstanding and must run after the last resume; evaluations = calls "
+                    "actually compared (both comparisons)",
+            "samples": [{"queue": c[0], "inactive": c[1], "item_pos": c[2], "ops": c[3][:60]} for c in cases[17:21]],
+            "distribution": dict(st, histories=len(cases), with_item=sum(1 for c in cases if c[2] >= 0)),
             "mismatches": mism[:20], "failures": fails[:20]}
 
 
@@ -168,15 +238,32 @@ def rle(ops, opmap):
 
 
 def replay_seq(ctx, obj):
-    exe, msg = common.build_harness("c06_suspend", ["c06_suspend.c"], whitebox=True)
-    for f in obj.get("failures", []):
-        c = f.get("case")
-        if c:
-            r = common.run([exe], input="%s %d %d %s\n" % tuple(c), timeout=60)
-            print(f["what"]); print("  re-run:", r.stdout.strip()[-300:], "rc", r.returncode)
+    """runs every recorded history again on the current build and on the models and judges it again.
+    rc 1: it fails / differs again; 0: it does not; 2: an entry carries no history (only a full ./check re-establishes it)"""
+    entries = [("failure", f) for f in obj.get("failures", [])]
     for b in obj.get("broken", []):
-        print("no longer checks:", b)
-    return 1
+        d = b.get("detail") if isinstance(b, dict) else None
+        entries.append(("mismatch", d if isinstance(d, dict) else {"what": str(b)}))
+    reproduced = unexecutable = 0
+    for kind, e in entries:
+        print("recorded %s: %s" % (kind, e.get("what")))
+        c = e.get("case")
+        if not c or len(c) != 4:
+            print("  carries no history: nothing to execute; only a full ./check re-establishes it")
+            unexecutable += 1
+            continue
+        mism, fails, st = judge_cases([c], "c06_replay")
+        again = [f for f in fails if f.get("key") == e.get("key")] if kind == "failure" else mism
+        if again:
+            reproduced += 1
+            print("  REPRODUCES on the current build: %s" % again[0]["what"][:400])
+        else:
+            print("  does not reproduce (%d calls compared with Model/Suspend.v, %d with suspend_word/resume_word, %d other failures, "
+                  "%d mismatches)" % (st["calls_compared"], st["word_calls_compared"], len(fails), len(mism)))
+    if not entries:
+        print("the replay file names nothing for the sequential part")
+        return 2
+    return 1 if reproduced else (2 if unexecutable else 0)
 
 
 TRUSTED += ["protocol part (Properties_C06_slane.v, lib/props/c06_slane.py): " + t for t in c06_slane.TRUSTED]
